@@ -1,5 +1,5 @@
 CONSTANTS
-  Slots = {"para", "atx", "atxclose", "setext", "codespan", "icode", "fcode", "info", "linktext", "linkdest", "linkdestangle", "linktitle", "linktitle1", "refdest", "refdestangle", "reftitle", "reflabel", "imgalt", "imgsrc", "imgtitle", "autolink", "autolinkpath", "mailto", "rawinline", "htmlblock", "tablecell", "tablehead", "fnlabel", "fnbody", "defterm", "defdesc", "task", "attrval", "attrbare", "attrkey", "attrid", "attrclass", "attrraw", "attrdatakey", "attridval", "linkify", "strike", "emph", "quote", "list", "olist", "typog", "nested"}
+  Slots = {"para", "atx", "atxclose", "setext", "codespan", "icode", "fcode", "info", "linktext", "linkdest", "linkdestangle", "linktitle", "linktitle1", "refdest", "refdestangle", "reftitle", "reflabel", "imgalt", "imgsrc", "imgtitle", "autolink", "autolinkpath", "mailto", "rawinline", "htmlblock", "tablecell", "tablehead", "fnlabel", "fnbody", "defterm", "defdesc", "task", "attrval", "attrbare", "attrkey", "attrid", "attrclass", "attrraw", "attrdatakey", "attridval", "attridq", "attrcase", "attrclassq", "attrstyleq", "linkify", "strike", "emph", "quote", "list", "olist", "typog", "nested"}
   Atoms = {"a", "lt", "gt", "dq", "sq", "amp", "eamp", "elt", "dlt", "xlt", "nosuch", "zero", "big", "nvlt", "nul", "cont", "lead2", "lead3", "lead4", "eacute", "cclose", "copen", "cdata", "script", "escript", "onerror", "bs", "bslt", "bsdq", "bsamp", "nl", "hardnl", "bsnl", "js", "backtick", "star", "under", "lbr", "rbr", "lpar", "rpar", "lbrace", "rbrace", "eq", "pipe", "colon", "tilde", "pct", "pctzz", "sp", "tab", "hash", "one", "true", "null", "bang", "caret", "dash", "dot", "cr", "colonent", "tabent"}
   PairAtoms = {"a", "lt", "dq", "amp", "bs", "nl", "cont", "lead3", "lbr", "rbr", "lpar", "rpar"}
   Endings = {"nl", "none"}
